@@ -124,3 +124,11 @@ def lift_sibling_non_ascii(case, mismatch):
 
 
 PREDICATES['lift_sibling_non_ascii'] = lift_sibling_non_ascii
+
+
+def observer_value_callback_panics(case, mismatch):
+    """the injected fault is a panic inside the final observer's own value callback (fault position 99 of Pipeline.tla)"""
+    return (case.get('fault') or {}).get('stage') == 99
+
+
+PREDICATES['observer_value_callback_panics'] = observer_value_callback_panics
